@@ -21,7 +21,7 @@ package cesium
 //@ # removeChannel: success means the key is in neither map; no other key is touched; a failure touches nothing
 //@ func (db *DB) removeChannel(ch ChannelKey) (err error)
 //@   # a key is a unary or a virtual channel, never both
-//@   requires forall k ChannelKey :: !(__in(db.mu.dbs.unary, k) && __in(db.mu.dbs.virtual, k))
+//@   requires_inv forall k ChannelKey :: !(__in(db.mu.dbs.unary, k) && __in(db.mu.dbs.virtual, k))
 //@   ensures err == nil ==> !__in(db.mu.dbs.unary, ch) && !__in(db.mu.dbs.virtual, ch)
 //@   ensures err != nil ==> __in(db.mu.dbs.unary, ch) == old(__in(db.mu.dbs.unary, ch)) && __in(db.mu.dbs.virtual, ch) == old(__in(db.mu.dbs.virtual, ch))
 //@   ensures forall k ChannelKey :: k != ch ==> __in(db.mu.dbs.unary, k) == old(__in(db.mu.dbs.unary, k)) && __in(db.mu.dbs.virtual, k) == old(__in(db.mu.dbs.virtual, k))
@@ -30,7 +30,7 @@ package cesium
 //@ # DeleteChannels: success means every listed key is gone from the engine, unary and virtual
 //@ # alike; keys that are not listed stay
 //@ func (db *DB) DeleteChannels(chs []ChannelKey) (err error)
-//@   requires forall k ChannelKey :: !(__in(db.mu.dbs.unary, k) && __in(db.mu.dbs.virtual, k))
+//@   requires_inv forall k ChannelKey :: !(__in(db.mu.dbs.unary, k) && __in(db.mu.dbs.virtual, k))
 //@   ensures err == nil ==> (forall j int :: 0 <= j && j < len(chs) ==> !__in(db.mu.dbs.unary, chs[j]) && !__in(db.mu.dbs.virtual, chs[j]))
 //@   ensures forall k ChannelKey :: (forall j int :: 0 <= j && j < len(chs) ==> chs[j] != k) ==> __in(db.mu.dbs.unary, k) == old(__in(db.mu.dbs.unary, k)) && __in(db.mu.dbs.virtual, k) == old(__in(db.mu.dbs.virtual, k))
 //@   modifies db.mu.dbs.unary, db.mu.dbs.virtual
